@@ -480,3 +480,26 @@ func replayFiles() []string {
 	sort.Strings(m)
 	return m
 }
+
+// maxParenDepth is the deepest nesting of parentheses in the text (ignoring quoting: an
+// over-approximation). Without -cache the front-end re-parses a parenthesised primary for
+// every alternative of the rules above it: its running time doubles with every level (20
+// levels: minutes). doc.go documents this ("exponential parsing time in pathological cases")
+// and names the remedy, the -cache flag.
+func maxParenDepth(text []byte) int {
+	d, m := 0, 0
+	for _, c := range text {
+		switch c {
+		case '(':
+			d++
+			if d > m {
+				m = d
+			}
+		case ')':
+			if d > 0 {
+				d--
+			}
+		}
+	}
+	return m
+}
